@@ -642,6 +642,35 @@ def namesake_union_family(run, tier, seed):
                          kind="oracle")
 
 
+def repeated_records_family(run, tier, seed):
+    """the same record several times in one list (identical documents in the text), side by side and apart, the record holding
+    arrays, maps and union values: every occurrence is read back whole"""
+    groups = [
+        ({"type": "record", "name": "Rep", "fields": [{"name": "xs", "type": {"type": "array", "items": "int"}}, {"name": "m", "type": {"type": "map", "values": "string"}},
+                                                      {"name": "u", "type": ["null", "string", {"type": "array", "items": "long"}]}]},
+         [{"xs": [1, 2, 3], "m": {"a": "b", "c": "d"}, "u": "s"}, {"xs": [], "m": {}, "u": None}, {"xs": [4], "m": {"k": "v"}, "u": [7, 8]}]),
+        ({"type": "array", "items": ["null", "int"]}, [[1, None, 2], [], [3]]),
+        ({"type": "map", "values": {"type": "array", "items": "string"}}, [{"k": ["a", "b"]}, {}, {"q": []}]),
+        (["null", "string", {"type": "map", "values": "int"}], ["x", {"a": 1}, None]),
+    ]
+    for sch, vals in groups:
+        for pattern in ([0, 0], [0, 1, 0], [0, 0, 0, 1, 1], [2, 1, 2, 1, 2], [0, 1, 2, 0, 1, 2]):
+            recs = [vals[i] for i in pattern]
+            case = {"schema": sch, "records": to_wire(recs), "tags": ["repeated-records"]}
+            run.count(case, True, ["repeated-records"])
+            for wut in (True, False):
+                it = impl_json(sch, recs, wut)
+                if "text" not in it:
+                    run.fail(dict(case, impl=it, write_union_type=wut), "conforming data (a record repeated in the list): json_writer raised %s" % it.get("err"), kind="oracle")
+                    continue
+                if not wut:
+                    continue          # (untagged text is not meant to be read back)
+                back = impl_read(sch, it["text"])
+                want = [to_wire(x) for x in recs]
+                if "ok" not in back or by_value(canon({"l": back["ok"]})) != by_value(canon({"l": want})):
+                    run.fail(dict(case, text=it["text"][:300], read_back=back), "a record that occurs several times in the list is not read back whole every time", kind="oracle")
+
+
 def run(tier, seed):
     run = Run("C15", tier, seed)
     run.rule = ("schemas of the generator (every top-level kind, nested arrays/maps/unions/records, by-name references, "
@@ -762,6 +791,7 @@ def run(tier, seed):
     machine_correspondence(run, tier, seed)
     defaults_family(run, tier, seed)
     namesake_union_family(run, tier, seed)
+    repeated_records_family(run, tier, seed)
     empty_list_family(run, tier, seed)
     big_output_family(run, tier, seed)
     positioned_stream_family(run, tier, seed)
